@@ -110,6 +110,10 @@ class Prop:
     trusted = []          # extra trusted-base lines
     rule = ""             # how cases are generated and what makes one non-trivial
     rel_tol = 1e-9
+    # Lean modules whose theorems tie *generated* definitions (tools/py2lean.py: translated from /repo's
+    # current source on every run into lean/TracklibVerif/Gen/) to the hand-written model. They are outside
+    # the library root, built per property: a change to a translated function breaks only this build.
+    tie_modules = []
 
     def setup(self):
         """import tracklib pieces (called once per process, stdout silenced)"""
@@ -257,6 +261,21 @@ def ensure_build(clean_props=False):
         return ok, log, time.time() - t0
 
 
+def build_ties(prop):
+    """Regenerate lean/TracklibVerif/Gen/*.lean from /repo's CURRENT source (tools/py2lean.py) and build the
+    property's tie modules. Returns (ok, log). A failure means: a translated function no longer is (provably,
+    by the committed tie proof) the function the model and its theorems are about."""
+    if not prop.tie_modules:
+        return True, ""
+    with _Lock():
+        g = subprocess.run([sys.executable, os.path.join(VERIF, "tools", "py2lean.py"), "--repo", REPO],
+                           stdout=subprocess.PIPE, stderr=subprocess.STDOUT, text=True)
+        if g.returncode != 0:
+            return False, "py2lean failed: " + g.stdout[-1500:]
+        p = subprocess.run(["lake", "build"] + list(prop.tie_modules), cwd=LEAN, stdout=subprocess.PIPE, stderr=subprocess.STDOUT, text=True)
+        return p.returncode == 0, p.stdout[-3000:]
+
+
 def strip_comments(text):
     text = re.sub(r"/-.*?-/", lambda m: "\n" * m.group(0).count("\n"), text, flags=re.S)
     return "\n".join(l.split("--")[0] for l in text.split("\n"))
@@ -275,8 +294,18 @@ def grep_forbidden():
     return hits
 
 
-def audit(prop, use_cache=True):
+def audit(prop, use_cache=True, tie_broken=None):
     """returns dict: {theorem: {"ok": bool, "axioms": [...], "why": str}}, plus forbidden-token hits"""
+    if tie_broken:
+        # the tie modules do not build: audit the other theorems, report the tie theorems as not discharged
+        class _Rest:
+            id = prop.id
+            theorems = [t for t in prop.theorems if t[0] not in prop.tie_modules]
+        res, forb, cached = audit(_Rest, use_cache=False)
+        for t in prop.theorems:
+            if t[0] in prop.tie_modules:
+                res[t[1]] = {"ok": False, "axioms": [], "why": "tie module does not build against the current source: " + tie_broken[-600:]}
+        return res, forb, cached
     digest = sources_digest()
     cache_path = os.path.join(LEAN, ".lake", "audit_cache_%s.json" % prop.id)
     if use_cache and os.path.exists(cache_path):
@@ -541,13 +570,18 @@ def run_check(pid_, tier, seed):
     if not ok_build:
         notes.append("lake build failed")
     audit_res, forbidden, cached = ({}, [], False)
+    tie_log = None
     if ok_build:
-        audit_res, forbidden, cached = audit(prop, use_cache=(tier == "quick"))
+        tie_ok, tl = build_ties(prop)
+        if not tie_ok:
+            tie_log = tl or "failed"
+            notes.append("tie modules %s do not build against the current source" % ", ".join(prop.tie_modules))
+        audit_res, forbidden, cached = audit(prop, use_cache=(tier == "quick"), tie_broken=tie_log)
     discharged = sum(1 for t in prop.theorems if audit_res.get(t[1], {}).get("ok"))
     proof_ok = ok_build and discharged == len(prop.theorems) and not forbidden
     checker_note = ""
     if tier == "thorough" and ok_build:
-        mods = sorted({t[0] for t in prop.theorems})
+        mods = sorted({t[0] for t in prop.theorems if not (tie_log and t[0] in prop.tie_modules)})
         if mods:
             okc, logc = leanchecker(mods)
             checker_note = "leanchecker %s: %s" % (" ".join(mods), "ok" if okc else "FAILED " + logc[-300:])
@@ -642,7 +676,7 @@ def run_check(pid_, tier, seed):
         cand = []
         for r in corr_fail[:50]:
             cand += list(prop.mutate(r["case"], srng))
-        if corr_fail:
+        if corr_fail or tie_log:
             cand += list(prop.search_cases(srng))
         if cand:
             sr = evaluate_parallel(pid_, cand, with_model=False)
@@ -660,6 +694,9 @@ def run_check(pid_, tier, seed):
             broken = []
             if not ok_build:
                 broken.append({"what": "lake build", "log": build_log[-1500:]})
+            if tie_log:
+                broken.append({"what": "tie between generated definitions (tools/py2lean.py on the current source) and the model: " + ", ".join(prop.tie_modules),
+                               "log": tie_log[-1500:]})
             for t in prop.theorems:
                 a = audit_res.get(t[1])
                 if ok_build and (a is None or not a["ok"]):
@@ -737,7 +774,8 @@ def run_replay(pid_, path):
         say("replay: this file names what no longer checks; no concrete failing input was found:")
         say(json.dumps(payload.get("no_longer_checks"), indent=1)[:3000])
         ok_build, _, _ = ensure_build()
-        res, forb, _ = audit(prop, use_cache=False) if ok_build else ({}, [], False)
+        tie_ok, tl = build_ties(prop) if ok_build else (True, "")
+        res, forb, _ = audit(prop, use_cache=False, tie_broken=(None if tie_ok else (tl or "failed"))) if ok_build else ({}, [], False)
         bad = [n for n, a in res.items() if not a["ok"]]
         again = []
         for b in payload.get("no_longer_checks", []):
